@@ -28,6 +28,7 @@ EXPLANATION = (
     "reference/wire_table.json; plus the format constants of the statement (register byte = 2-bit bank at bits 0-1, 4-bit "
     "index at bits 2-5; immediate = 1 unsigned byte; integer/address = 4-byte signed little-endian; metadata = 2 version "
     "bytes + uint16 app id; every command struct packed and exactly 7 bytes)."
+    ' C02.O: the opcode tables consulted at run time are owned per flavour instance.'
 )
 LEVEL_TEXT = (
     "Static analysis, full: the wire layout of all instruction classes of all flavours is derived from the source and "
